@@ -109,7 +109,7 @@ def check_impl(line, res):
         i = int(a[1])
         if 0 <= i < n: exp = str(sq[i])
         elif -n <= i < 0: exp = str(sq[n + i])
-        else: return None        # out of range: the code's behaviour (0 at index n==0, IndexError else) is compared with the model
+        else: return None if res == 'ERR' else bad('index out of range must be refused')
         return None if res == exp else bad('expected %s' % exp)
     if op == 'bits.int':
         s = int(a[1])
